@@ -187,14 +187,29 @@ def r_sql_columns(prog, rep, db=None):
         if not sel:
             raise AnalysisBroken("SELECT of %s not found" % stmt)
         n_reads = 0
+        cols_read = set()
+        # the reads of this statement's columns: in the reader itself, and in a helper of the class that is handed the statement
+        # (`readRow(stmt, result_out)`): there the statement is the helper's parameter
+        sites = []
         for c in g.calls():
             nm = c.get("fn") or ""
-            if nm not in COLUMN_CLASS:
+            if nm in COLUMN_CLASS:
+                if db.stmt_of(g, arg_nodes(c)[0])[0] == stmt:
+                    sites.append((g, c))
                 continue
+            h = prog.functions.get(c.get("fk")) if c.get("k") == "call" and c.get("fk") else None
+            if h is None or h is g or h.is_lambda or relpath(h.file) != relpath(g.file):
+                continue
+            for i_, a_ in enumerate(arg_nodes(c)):
+                if a_ is not None and i_ < len(h.params) and db.stmt_of(g, a_)[0] == stmt:
+                    pn = h.params[i_]["n"]
+                    for c2 in h.calls():
+                        if (c2.get("fn") or "") in COLUMN_CLASS and expr_str(core(arg_nodes(c2)[0])) == pn:
+                            sites.append((h, c2))
+        g0 = g
+        for g, c in sites:
+            nm = c.get("fn") or ""
             a = arg_nodes(c)
-            sname, ssql = db.stmt_of(g, a[0])
-            if sname != stmt:
-                continue
             j = core(a[1]).get("v")
             if j is None or j >= len(sel["bare"]):
                 r.violation("%s|%s|column#%s" % (fname, stmt, j), "column index %s is outside the SELECT list" % j, g, c)
@@ -202,6 +217,7 @@ def r_sql_columns(prog, rep, db=None):
             col = sel["bare"][j]
             want = RESULT_FIELD_OF_COLUMN.get(col)
             n_reads += 1
+            cols_read.add(col)
             site = "%s|%s|%s" % (fname, stmt, col)
             dest = destination_of(g, c)
             cls = COLUMN_CLASS[nm]
@@ -218,8 +234,10 @@ def r_sql_columns(prog, rep, db=None):
                 ok = (dest.split("->")[-1].split(".")[-1].strip() == want) and cls == aff
             r.check(ok, site + "|" + nm.replace("sqlite3_column_", ""), "-> %s" % dest[:40],
                     "column '%s' (index %d of the SELECT) is read with %s into %s; expected Result::%s" % (col, j, nm, dest[:50], want), g, c)
-        need = set(rr_cols)
-        r.check(n_reads >= 10, "%s|%s|reads" % (fname, stmt), "%d column reads" % n_reads, "only %d column reads found" % n_reads, g)
+        g = g0
+        need = set(c_ for c_ in sel["bare"] if c_ in rr_cols)
+        r.check(need <= cols_read, "%s|%s|reads" % (fname, stmt), "%d column reads" % n_reads,
+                "selected column(s) %s are never read back into the result (%d column reads found)" % (sorted(need - cols_read), n_reads), g)
         # every rule_results column is selected
         r.check(set(rr_cols) <= set(sel["bare"]), "%s|%s|select-list" % (fname, stmt), "", "SELECT list misses %s" % sorted(set(rr_cols) - set(sel["bare"])), g)
     return r
@@ -391,18 +409,51 @@ def run(ctx):
     if len(preps) < 6:
         raise AnalysisBroken("open(): %d statement preparations" % len(preps))
     first = min(preps, key=lambda c: c.line)
-    blk = [b for b in g.blocks.values() if b.cond() is not None and "currentSchemaVersion" in expr_str(b.cond()) and b.term["cls"] == "IfStmt"]
+    def cmp_nodes(n, depth=0):
+        """the ==/!= comparisons a condition is made of, looking through bool locals that are initialised once"""
+        out = []
+        for x in n.walk():
+            if x.get("k") in ("bin", "call") and x.get("op") in ("==", "!="):
+                out.append(x)
+            if x.get("k") == "ref" and depth < 3:
+                inits = [g.nodes[v["init"]] for d in g.nodes if d.get("k") == "decl" for v in d.get("vars", []) if v.get("did") == x.get("did") and "init" in v]
+                if inits and len(set(i_["id"] for i_ in inits)) == 1 and "bool" in x.ctype():
+                    out += cmp_nodes(inits[0], depth + 1)
+        return out
+
+    def sides(x):
+        l = x.child("l") if x.get("k") == "bin" else (x.child("obj") if "obj" in x else g.nodes[x["args"][0]])
+        r_ = x.child("r") if x.get("k") == "bin" else g.nodes[x["args"][-1]]
+        return l, r_
+    blk = [b for b in g.blocks.values() if b.cond() is not None and b.term["cls"] == "IfStmt" and
+           any("currentSchemaVersion" in expr_str(x) for x in cmp_nodes(b.cond()))]
     ok = len(blk) == 1
-    atoms = set()
+    table = None
     if ok:
-        atoms = set(cfg.cond_atoms(blk[0].cond(), False))
-    want = {("(currentSchemaVersion == version)", True), ("(clientSchemaVersion == clientVersion)", True)}
-    norm = set((a.replace("cast<unsigned int>", "").replace("cast<int>", ""), p) for a, p in atoms)
-    norm = set((canon_eq(a), p) for a, p in norm)
-    r.check(norm == set((canon_eq(a), p) for a, p in want), "open|use-as-is-predicate", "", "use-as-is predicate is %s" % sorted(atoms), g)
+        # truth table of the branch over the two equalities (whatever the spelling: != with ||, a named `matches` boolean, De Morgan ...)
+        keys = {"schema": [], "client": []}
+        for x in cmp_nodes(blk[0].cond()):
+            l, r_ = sides(x)
+            txt = expr_str(x)
+            which = "schema" if "currentSchemaVersion" in txt else ("client" if "clientSchemaVersion" in txt else None)
+            if which:
+                keys[which] += ["(%s == %s)" % (cfg.canon(l), cfg.canon(r_)), "(%s == %s)" % (cfg.canon(r_), cfg.canon(l))]
+        table = {}
+        for sv in (True, False):
+            for cv in (True, False):
+                env = dict((k_, sv) for k_ in keys["schema"])
+                env.update((k_, cv) for k_ in keys["client"])
+                table[(sv, cv)] = cfg.bool_eval(g, blk[0].cond(), env)
+        # the branch is the *mismatch* arm when it is taken for everything but (match, match), or the *use as is* arm when taken only for it
+        mism = {(True, True): False, (True, False): True, (False, True): True, (False, False): True}
+        asis = dict((k_, not v) for k_, v in mism.items())
+        ok = table in (mism, asis)
+        mismatch_succ = 0 if table == mism else 1
+    r.check(ok, "open|use-as-is-predicate", "", "the file is not used as is exactly when schema version and client version both match (truth table over "
+            "(schema equal, client equal): %s)" % (sorted(table.items()) if table else "test not found"), g)
     if ok:
         # mismatch arm: no path to the first prepare that avoids (return | unlink + CREATE TABLE)
-        s_true = blk[0].succs[0]
+        s_true = blk[0].succs[mismatch_succ]
         fp = cfg.pos_of(g, first)
         w = cfg.path_exists(g, (s_true, -1), lambda p, e: p == fp, avoid=lambda p, e: E.is_call(g, e, ["unlink"]))
         r.check(w is None, "open|mismatch-unlinks", "", "mismatching database can reach statement preparation without being unlinked", g)
